@@ -208,7 +208,8 @@ def _r1(ctx, rm, pkg):
     conv = None
     for n in ast.walk(fn):
         if isinstance(n, ast.If) and isinstance(n.test, ast.Compare) and isinstance(n.test.ops[0], (ast.Is, ast.Eq)) and \
-                ast.unparse(n.test.comparators[0]) == "NotImplemented" and ast.unparse(n.test.left) == "rate":
+                ast.unparse(n.test.comparators[0]) == "NotImplemented" and isinstance(n.test.left, ast.Name) and \
+                any(isinstance(r, ast.Return) and isinstance(r.value, ast.Name) and r.value.id == n.test.left.id for r in ast.walk(fn)):     # the tested name is the one returned
             if n.body and isinstance(n.body[0], ast.Raise) and "NotImplementedError" in ast.unparse(n.body[0]):
                 conv = n
     rets = [n for n in ast.walk(fn) if isinstance(n, ast.Return)]
